@@ -373,10 +373,10 @@ struct BuildLogChain {
         }
         if (found != std::string::npos && (!latest || found >= latest_pos)) { latest = &il; latest_pos = found; }
       }
-      if (!latest) {
-        // K22: the record was torn inside its hash, and the first digits of the line
-        // appended behind it happen to complete exactly the missing hex digits
-        bool completed = false;
+      // K22: the record was torn inside its hash, and the first digits of the line
+      // appended behind it happen to complete exactly the missing hex digits
+      bool completed = false;
+      if (!latest || latest->rec.mtime != l.mtime) {
         for (auto& il : issued) {
           if (il.out != l.out || il.rec.hash != l.hash || il.rec.mtime != l.mtime) continue;
           std::string body = il.line.substr(0, il.line.size() - 1);
@@ -391,9 +391,10 @@ struct BuildLogChain {
             }
           }
         }
-        if (completed)
-          viols.Report("C08", "merged_completes_torn_hash", "'" + l.out.substr(0, 60) + "' looks up to date: its record was torn inside the hash and the start time of the record appended behind it supplied exactly the missing hex digits");
-        else
+      }
+      if (completed) {
+        viols.Report("C08", "merged_completes_torn_hash", "'" + l.out.substr(0, 60) + "' looks up to date: its record was torn inside the hash and the start time of the record appended behind it supplied exactly the missing hex digits");
+      } else if (!latest) {
         viols.Report("C08", "log_false_fresh", "'" + l.out.substr(0, 60) + "' looks up to date (true command hash) although no complete record of it is in the file");
       } else if (latest->rec.mtime != l.mtime) {
         // a later garbled line may only make it look out of date; same hash with other numbers is a fabricated record
